@@ -383,6 +383,7 @@ func verifLemmaSequencerConsecutive(s *sequencer) (uint16, uint16) {
 //@   ensures ext_profile [C02,C03]: err == nil && bits(buf[0], 4, 4) == 1 ==> int(h.ExtensionProfile) == be16(buf, 12 + 4*bits(buf[0], 3, 0)) && n >= 16 + 4*bits(buf[0], 3, 0)
 //@   ensures ext_values_are_input [C02]: err == nil ==> extsWithin(h.Extensions, len(h.Extensions), buf, n)
 //@   ensures ext_block_skipped [C02,C03]: err == nil && bits(buf[0], 4, 4) == 1 ==> n >= 16 + 4*bits(buf[0], 3, 0) + 4*be16(buf, 14 + 4*bits(buf[0], 3, 0))
+//@   ensures ext_block_skipped_unless_reserved [C02,C03]: err == nil && bits(buf[0], 4, 4) == 1 && n < 16 + 4*bits(buf[0], 3, 0) + 4*be16(buf, 14 + 4*bits(buf[0], 3, 0)) ==> be16(buf, 12 + 4*bits(buf[0], 3, 0)) == 48862 && bits(buf[n - 1], 7, 4) == 15
 //@   loop 0: invariant filled [C02,C03]: len(h.CSRC) == bits(buf[0], 3, 0) && rangeindex <= len(h.CSRC) - 1 && (forall i :: 0 <= i && i <= rangeindex ==> int(h.CSRC[i]) == be32(buf, 12 + 4*i))
 //@   loop 0: invariant stable [C02,C03]: n == 12 + 4*bits(buf[0], 3, 0) && n <= len(buf) && int(h.Version) == bits(buf[0], 7, 6) && (h.Padding <==> bits(buf[0], 5, 5) == 1) && (h.Extension <==> bits(buf[0], 4, 4) == 1) && (h.Marker <==> bits(buf[1], 7, 7) == 1) && int(h.PayloadType) == bits(buf[1], 6, 0) && int(h.SequenceNumber) == be16(buf, 2) && int(h.Timestamp) == be32(buf, 4) && int(h.SSRC) == be32(buf, 8)
 //@   loop 1: invariant bounds [C02]: 16 + 4*bits(buf[0], 3, 0) <= n && n <= len(buf) && extensionEnd <= len(buf) && extensionEnd == 16 + 4*bits(buf[0], 3, 0) + 4*be16(buf, 14 + 4*bits(buf[0], 3, 0))
